@@ -51,8 +51,14 @@ func mkOperand(name string, kind int, strLen int) (any, sv) {
 	case kNull:
 		return nil, sv{kind: kNull}
 	case kArr:
+		if vh.Choose(name+"_empty", 2) == 1 {
+			return []any{}, sv{kind: kArr}
+		}
 		return []any{1.0}, sv{kind: kArr}
 	case kObj:
+		if vh.Choose(name+"_empty", 2) == 1 {
+			return map[string]any{}, sv{kind: kObj}
+		}
 		return map[string]any{"k": 1.0}, sv{kind: kObj}
 	}
 	panic("mkOperand: kind")
@@ -363,6 +369,24 @@ func VHC05LogicUnaryIs() {
 	vh.Reach("logic evaluated")
 }
 
+var isAll = []string{"string", "bool", "number", "array", "object", "null", "function", "regex", "unknown"}
+var isAllKinds = []int{kStr, kBool, kNum, kArr, kObj, kNull, kFn, kRegex, kUnset}
+
+// VHC05IsProgram: `is` with every type name on every kind of value a program can hold
+// (including functions, regex literals and unset variables).
+func VHC05IsProgram() {
+	exprs := []string{"'s'", "true", "1.5", "[1]", "{k: 1}", "null", "fn", "/re/", "nosuchvar", "$.d", "[]", "{}", "printf"}
+	kinds := []int{kStr, kBool, kNum, kArr, kObj, kNull, kFn, kRegex, kUnset, kNum, kArr, kObj, -1}
+	vi := vh.Choose("value", len(exprs))
+	ni := vh.Choose("name", len(isAll))
+	out, k := runProg("function fn() { return 1 }\n{ print "+exprs[vi]+" is "+isAll[ni]+" }", map[string]any{"d": 2.0})
+	vh.Reach("is evaluated")
+	vh.Assert(k == OK, "C05: `is` never fails")
+	if kinds[vi] >= 0 {
+		vh.Assert(out == bstr(kinds[vi] == isAllKinds[ni])+"\n", "C05: "+exprs[vi]+" is "+isAll[ni])
+	}
+}
+
 // Operand spellings for the program route (variables, literals, unset, regex, function).
 type progOperand struct {
 	text string // expression text
@@ -494,4 +518,33 @@ func VHC05Regex() {
 		checkResult(cell, k, sres{kind: resBool, b: !neg}, "C05 string "+op+" regex literal")
 	}
 	vh.Reach("regex evaluated")
+}
+
+var c05NumStrings = []string{"+5", "-5", "5", "05", "5.0", ".5", "5.", "+.5e1", "1e3", "1E-2", "inf", "-inf", "+Inf", "Infinity", "nan", "NaN", "0x10", "0x1p-2", "1_000", " 5", "5 ", "", "abc", "5a", "--5", "1e", "１"}
+
+// VHC05NumStrings: strings coerce to numbers exactly when strconv.ParseFloat accepts
+// them (signs, exponents, inf / nan spellings, hex floats included), else to 0.
+func VHC05NumStrings() {
+	str := c05NumStrings[vh.Choose("str", len(c05NumStrings))]
+	other := []float64{2, 0, -1.5}[vh.Choose("num", 3)]
+	ops := []string{"*", "-", "/", "%", "<", "==", ">="}
+	op := ops[vh.Choose("op", len(ops))]
+	left := vh.Choose("strLeft", 2) == 0
+	ssv, nsv := sv{kind: kStr, str: str}, sv{kind: kNum, num: other}
+	var want sres
+	a, b := ssv, nsv
+	src := "$.s " + op + " $.n"
+	if !left {
+		a, b = nsv, ssv
+		src = "$.n " + op + " $.s"
+	}
+	switch op {
+	case "<", "==", ">=":
+		want = specCompare(op, a, b)
+	default:
+		want = specArith(op, a, b)
+	}
+	cell, k, _ := evalExpr(src, map[string]any{"s": str, "n": other})
+	vh.Reach("numeric string evaluated")
+	checkResult(cell, k, want, "C05 numeric-string coercion: "+strconv.Quote(str)+" in `"+src+"`")
 }
